@@ -71,8 +71,6 @@ def handle (fs : List String) : String :=
     F4 — the same config with a probe log writer loaded twice, then Stop: the writer is never
     closed, its pool count is 2 after the second load and stays 2 after Stop. -/
 def witnessLines : List String :=
-  ["L=0~0:1~0,1,0,-,-=1,0,0,-,0,0 L=0~0:1~0,1,0,-,-=1,0,0,-,0,0 S",
-   -- StdProps.lean cert_cache_function_of_running_full_fails: the tls app's certificate survives caddy.Stop
-   "E L00=0 S"]
+  ["L=0~0:1~0,1,0,-,-=1,0,0,-,0,0 L=0~0:1~0,1,0,-,-=1,0,0,-,0,0 S"]
 
 end CaddyModel.C03
